@@ -124,7 +124,14 @@ func runC08(c *Check, w *World) {
 					bad++
 					c.Bad("R08.2", fn, fmt.Sprintf("algorithm=%d", k), "a supported hash is refused on some path", pos)
 				case supported:
-					if x, ok := constInt(sz); !ok || x.Int64() != wv {
+					x, ok := constInt(sz)
+					if !ok {
+						// the size comes from a helper (secretSize(algo)): evaluate it for this algorithm value
+						if av := ae.Eval(tb.Of(sz), cell, 0); av.Kind == "int" && av.I.Lo != nil && av.I.Hi != nil && av.I.Lo.Cmp(av.I.Hi) == 0 {
+							x, ok = av.I.Lo, true
+						}
+					}
+					if !ok || x.Int64() != wv {
 						bad++
 						c.Bad("R08.2", fn, fmt.Sprintf("algorithm=%d", k), fmt.Sprintf("the secret for hash %d has %s bytes, expected %d", k, tb.Of(sz).String(), wv), w.InstrPos(buf))
 					}
